@@ -134,6 +134,39 @@ def stuck (cs : Comps W) : List (List W) :=
   ((unionGrams cs).map (fun g => g.1 ++ [g.2])).filter
     (fun g => decide (g.length < maxOrder cs) && !hasBackoffRecord cs g)
 
+/-! ### the pass-1 record and the pass-2 charging, as the code does it
+
+`merge_probabilities.cc` writes for every union n-gram `c ++ [x]` and every component the
+probability of the longest suffix the component has (`HandleSuffix`: `fallback_probs`) and the
+context length it was found at (`from`).  `normalize.cc` (`SameContext`) then adds the back-offs
+of the contexts longer than `from`: all of them to `Prob()`, all but the longest to `LowerProb()`. -/
+
+/-- `(probability of the longest suffix present, its context length)` -/
+def LM.merge (m : LM W) : List W → W → Rat × Nat
+  | [], w =>
+    match m.find [] w with
+    | some e => (e.prob, 0)
+    | none => (m.unkProb, 0)
+  | y :: c, w =>
+    match m.find (y :: c) w with
+    | some e => (e.prob, (y :: c).length)
+    | none => m.merge c w
+
+/-- back-offs of the suffixes of `c` that are longer than `from` -/
+def LM.charge (m : LM W) : List W → Nat → Rat
+  | [], _ => 0
+  | y :: c, from_ => if from_ < (y :: c).length then m.boOf (y :: c) + m.charge c from_ else 0
+
+/-- `input_->Prob()` after the charging loop of `SameContext` -/
+def toolProb (cs : Comps W) (c : List W) (x : W) : Rat :=
+  (cs.map (fun p => p.1 * ((p.2.merge c x).1 + p.2.charge c (p.2.merge c x).2))).sum
+
+/-- `input_->LowerProb()` after the charging loop of `SameContext` for context `y :: c`:
+the uncharged value is the suffix record's, the charges are decided by the `from` of the *full*
+record and stop below the longest context. -/
+def toolLower (cs : Comps W) (y : W) (c : List W) (x : W) : Rat :=
+  (cs.map (fun p => p.1 * ((p.2.merge c x).1 + p.2.charge c (p.2.merge (y :: c) x).2))).sum
+
 end Log
 
 /-! ## Linear domain: the incremental normaliser and the output model -/
@@ -154,6 +187,14 @@ def Zinc (E : Rat → F) (cs : Comps W) (V : List W) : List W → F
     E (bsum cs (y :: c)) * Zinc E cs V c +
       ((explicit cs (y :: c)).map
         (fun x => E (usum cs (y :: c) x) - E (usum cs c x + bsum cs (y :: c)))).sum
+
+/-- the incremental normaliser written with the pass-1/pass-2 quantities of the code -/
+def ZincTool (E : Rat → F) (cs : Comps W) (V : List W) : List W → F
+  | [] => (V.map (fun w => E (toolProb cs [] w))).sum - 1
+  | y :: c =>
+    E (bsum cs (y :: c)) * ZincTool E cs V c +
+      ((explicit cs (y :: c)).map
+        (fun x => E (toolProb cs (y :: c) x) - E (toolLower cs y c x + bsum cs (y :: c)))).sum
 
 /-- linear value of the probability written for the union n-gram `c ++ [x]`
 (`ProbWrite() -= z`) -/
@@ -231,6 +272,73 @@ def globalizeAll (ms : List LocalLM) (ls : List Rat) : Comps Nat :=
   ls.zip (ms.map (LocalLM.globalize (unionVocab ms)))
 
 end Vocab
+
+/-! ## `BoundedSequenceEncoding` (bounded_sequence_encoding.{hh,cc})
+
+The `from` vector of a pass-1 record (one entry per component, entry `i` bounded by
+`min(order, orderᵢ)`) is packed into consecutive bit fields of 64-bit little-endian words; a
+field that would cross a word boundary starts a new word.  Memory is a little-endian `Nat`. -/
+namespace BSE
+
+structure Ent where
+  next  : Bool
+  shift : Nat
+  len   : Nat
+deriving Repr, DecidableEq
+
+/-- `sizeof(unsigned)*8 - __builtin_clz(b)` for `b > 1`, `0` for `b ≤ 1` -/
+def bitLen (b : Nat) : Nat := if b ≤ 1 then 0 else Nat.log2 b + 1
+
+/-- the constructor loop: entries, final `entry.shift`, `full` -/
+def build : List Nat → Nat → List Ent × Nat × Nat
+  | [], s => ([], s, 0)
+  | b :: bs, s =>
+    if s + bitLen b > 64 then
+      let r := build bs (bitLen b)
+      (⟨true, 0, bitLen b⟩ :: r.1, r.2.1, r.2.2 + 1)
+    else
+      let r := build bs (s + bitLen b)
+      (⟨false, s, bitLen b⟩ :: r.1, r.2.1, r.2.2)
+
+def entries (bounds : List Nat) : List Ent := (build bounds 0).1
+
+/-- `byte_length_` -/
+def byteLength (bounds : List Nat) : Nat :=
+  let r := build bounds 0
+  r.2.2 * 8 + (r.2.1 + 7) / 8
+
+/-- the 64-bit words produced by `Encode` (the last one is the final `cur`) -/
+def encWords : List Ent → List Nat → Nat → List Nat
+  | [], _, cur => [cur]
+  | _ :: _, [], cur => [cur]
+  | e :: es, v :: vs, cur =>
+    if e.next then cur :: encWords es vs ((v <<< e.shift) % 2^64)
+    else encWords es vs ((cur ||| (v <<< e.shift)) % 2^64)
+
+/-- words laid out little-endian -/
+def wordsToNat : List Nat → Nat
+  | [] => 0
+  | w :: ws => (w % 2^64) ||| (wordsToNat ws <<< 64)
+
+/-- `Encode`: the bytes written (`byte_length_` of them; the last word is cut to `overhang_` bytes) -/
+def encode (bounds : List Nat) (vs : List Nat) : Nat :=
+  wordsToNat (encWords (entries bounds) vs 0) % 2^(8 * byteLength bounds)
+
+def decM : List Ent → Nat → List Nat
+  | [], _ => []
+  | e :: es, m =>
+    let m' := if e.next then m >>> 64 else m
+    (((m' % 2^64) >>> e.shift) % 2^e.len) :: decM es m'
+
+/-- no entry asks for a shift by 64 (undefined behaviour of `uint64_t << 64` in C++): the only
+way to get one is a zero-width field (bound ≤ 1) right after a completely full word -/
+def ubFree (bounds : List Nat) : Bool := (entries bounds).all (fun e => decide (e.shift < 64))
+
+/-- `Decode` reading `byte_length_` bytes -/
+def decode (bounds : List Nat) (m : Nat) : List Nat :=
+  decM (entries bounds) (m % 2^(8 * byteLength bounds))
+
+end BSE
 
 /-- float32 bit pattern → exact rational (finite values; inf/nan ↦ 0) -/
 def f32ToRat (b : Nat) : Rat :=
